@@ -14,9 +14,17 @@
    (ledger_inv), not a definition.  Counters are Z so that an underflow of the code's unsigned counters would show
    up as a negative value (excluded by ledger_inv). *)
 From Coq Require Import List ZArith NArith Bool Arith.
-From LTV.C16 Require Import ParamsGen.
 Import ListNotations.
 Open Scope Z_scope.
+
+(* Wire-format constants of BEP 3 as the model uses them; coq/C16/ParamsTie.v proves that the constants read from the
+   compiled code (ParamsGen.v) are these.  (Kept out of ParamsGen so that a regenerated ParamsGen.v does not force
+   every proof to be rebuilt.) *)
+Module MP.
+Definition hs_part1 : N := 48%N.     (* Handshake::part1_size: protocol string + reserved + info hash *)
+Definition hs_size : N := 68%N.      (* Handshake::handshake_size *)
+Definition piece_hdr : N := 13%N.    (* ProtocolBase::sizeof_piece *)
+End MP.
 
 Inductive phase := PNone | PHs | PConn.
 Inductive tst := TQ | TL | TN | TE.          (* BlockTransfer: queued / leader / not leader / erased (dissimilar) *)
@@ -327,9 +335,10 @@ Definition leader_of (b : blk) : option nat :=
 
 (* ---- state ------------------------------------------------------------------------------------------------ *)
 Record st := mkSt { rows : list row; g : vec; blocks : list blk; active : bool; opened : bool; seeding : bool; rej : bool; pexact : bool;
-                    maxc : Z (* ConnectionList::max_size *) }.
+                    maxc : Z (* ConnectionList::max_size *);
+                    maxpex : Z (* DownloadInfo::max_size_pex: a tuning constant, set by SetMaxPex from the probed value *) }.
 
-Definition init (seed : bool) : st := mkSt [] vz [] true true seed false false 100.
+Definition init (seed : bool) : st := mkSt [] vz [] true true seed false false 100 8.
 
 Fixpoint upd (c : nat) (f : row -> row * vec) (l : list row) : list row * vec * bool :=
   match l with
@@ -348,11 +357,11 @@ Definition get_row (c : nat) (l : list row) : option row := find (fun r => Nat.e
 
 Definition with_row (c : nat) (f : row -> row * vec) (s : st) : st :=
   match upd c f (rows s) with
-  | (rs, dv, ok) => mkSt rs (g s +v dv) (blocks s) (active s) (opened s) (seeding s) (rej s || negb ok) (pexact s) (maxc s)
+  | (rs, dv, ok) => mkSt rs (g s +v dv) (blocks s) (active s) (opened s) (seeding s) (rej s || negb ok) (pexact s) (maxc s) (maxpex s)
   end.
 Definition set_blocks (bl : list blk) (s : st) : st :=
-  mkSt (rows s) (g s) bl (active s) (opened s) (seeding s) (rej s) (pexact s) (maxc s).
-Definition reject (s : st) : st := mkSt (rows s) (g s) (blocks s) (active s) (opened s) (seeding s) true (pexact s) (maxc s).
+  mkSt (rows s) (g s) bl (active s) (opened s) (seeding s) (rej s) (pexact s) (maxc s) (maxpex s).
+Definition reject (s : st) : st := mkSt (rows s) (g s) (blocks s) (active s) (opened s) (seeding s) true (pexact s) (maxc s) (maxpex s).
 
 Inductive op :=
 | Connect (c : nat) (incoming ext : bool)
@@ -364,7 +373,8 @@ Inductive op :=
 | SetMax (n : Z)                               (* ConnectionList::set_max_size *)
 | Abort (c : nat)                              (* remote close / reset / timeout / error on c *)
 | Stop | Close | Remove | Start
-| PexTick.                                     (* DownloadMain::do_peer_exchange switched PEX on (flag_pex_active) *)
+| PexTick                                       (* DownloadMain::do_peer_exchange switched PEX on (flag_pex_active) *)
+| SetMaxPex (n : Z).                           (* DownloadInfo::set_max_size_pex / the probed default *)
 
 (* the handshake reads the first message after the 68 bytes; which messages end the handshake phase *)
 Definition hs_msg (seed full : bool) (m : pmsg) (n len : N) (r : row) : row * vec :=
@@ -394,21 +404,21 @@ Definition ph_skip_row (r : row) : row * vec :=
   (set_td true (set_tc (tc r + 1) (set_cur CSkip r)), d 16 (1 - B (td r))).
 Definition tc_add (k : Z) (r : row) : row * vec := (set_tc (tc r + k) r, vz).
 Definition dissim_row (r : row) : row * vec := (set_tc (tc r + 1) (set_cur CSkip r), vz).
-Definition hs_bytes_row (pexa : bool) (gpx : Z) (n : N) (r : row) : row * vec :=
+Definition hs_bytes_row (pexa : bool) (gpx mp : Z) (n : N) (r : row) : row * vec :=
   match ph r with
   | PHs =>
       let r1 := set_hsb n r in
-      let r2 := if inc r && N.leb Params.c16_hs_part1 n then set_dlb true r1 else r1 in
-      if N.leb Params.c16_hs_size n then
+      let r2 := if inc r && N.leb MP.hs_part1 n then set_dlb true r1 else r1 in
+      if N.leb MP.hs_size n then
         let r3 := if inc r then set_pi_h true (set_pi_c true (set_pi_some true r2)) else r2 in
         (* Handshake::read_peer -> write_extension_handshake: PEX is switched on in the handshake already *)
-        if ext r3 && pexa && negb (px r3) && Z.ltb gpx Params.c16_max_size_pex
+        if ext r3 && pexa && negb (px r3) && Z.ltb gpx mp
         then (set_px true r3, d 14 1) else (r3, vz)
       else (r2, vz)
   | _ => (r, vz)
   end.
-Definition pex_enable_row (gpx : Z) (r : row) : row * vec :=
-  if is_conn r && xpex r && negb (px r) && Z.ltb gpx Params.c16_max_size_pex
+Definition pex_enable_row (gpx mp : Z) (r : row) : row * vec :=
+  if is_conn r && xpex r && negb (px r) && Z.ltb gpx mp
   then (set_px true r, d 14 1) else (r, vz).
 
 (* connection-level updates only ever apply to an established connection, handshake-level ones to a handshake *)
@@ -512,14 +522,14 @@ Definition do_stop (s : st) : st :=
   if active s then
     let (bl, dr) := stop_blocks (conn_ids (rows s)) (blocks s) in
     let (rs, dv) := upd_all stop_row (rows s) in
-    dec_tc_all dr (mkSt rs (g s +v dv) bl false (opened s) (seeding s) (rej s) (pexact s) (maxc s))
+    dec_tc_all dr (mkSt rs (g s +v dv) bl false (opened s) (seeding s) (rej s) (pexact s) (maxc s) (maxpex s))
   else s.
 
 (* DownloadMain::close: TransferList::clear deletes every Block; what is left in them gives its peer reference back *)
 Definition do_close (s : st) : st :=
   let s1 := do_stop s in
   let s2 := dec_tc_all (flat_map (fun b => map fst (trs b)) (blocks s1)) s1 in
-  mkSt (rows s2) (g s2) [] false false (seeding s2) (rej s2) (pexact s2) (maxc s2).
+  mkSt (rows s2) (g s2) [] false false (seeding s2) (rej s2) (pexact s2) (maxc s2) (maxpex s2).
 
 Definition pmsg_step (c : nat) (m : pmsg) (n len : N) (s : st) : st :=
   match get_row c (rows s) with
@@ -528,24 +538,24 @@ Definition pmsg_step (c : nat) (m : pmsg) (n len : N) (s : st) : st :=
       match ph r with
       | PNone => s
       | PHs =>
-          if N.eqb (hsb r) Params.c16_hs_size then
+          if N.eqb (hsb r) MP.hs_size then
             let s1 := with_row c (on_hs (hs_msg (seeding s) (Z.leb (maxc s) (nth 0 (g s) 0)) m n len)) s in
             (* messages handed over with the handshake are dispatched at once (commit 5c4764e) *)
             match get_row c (rows s1), m with
             | Some r1, (MInt | MNotInt | MUnchoke | MChoke) =>
                 if is_conn r1 && N.eqb n len then with_conn c (conn_msg_simple m) s1 else s1
             | Some r1, MPiece b ds =>
-                if is_conn r1 && N.leb Params.c16_piece_hdr n then piece_header c b s1 else s1
+                if is_conn r1 && N.leb MP.piece_hdr n then piece_header c b s1 else s1
             | _, _ => s1
             end
           else s
       | PConn =>
           match m with
           | MPiece b ds =>
-              if N.ltb n Params.c16_piece_hdr then s else
+              if N.ltb n MP.piece_hdr then s else
               let s1 := match cur r with CNone => piece_header c b s | _ => s end in
               let s2 := match ds with
-                        | Some k => if N.ltb (Params.c16_piece_hdr + k) n then dissimilar c s1 else s1
+                        | Some k => if N.ltb (MP.piece_hdr + k) n then dissimilar c s1 else s1
                         | None => s1 end in
               if N.eqb n len then piece_end c s2 else s2
           | _ => if N.eqb n len then with_conn c (conn_msg_simple m) s else s
@@ -559,9 +569,9 @@ Definition step (s : st) (o : op) : st :=
       match get_row c (rows s) with
       | Some _ => reject s
       | None => mkSt (rows s ++ [new_row c incoming e]) (g s +v d 1 1 +v d 18 1) (blocks s)
-                     (active s) (opened s) (seeding s) (rej s) (pexact s) (maxc s)
+                     (active s) (opened s) (seeding s) (rej s) (pexact s) (maxc s) (maxpex s)
       end
-  | HsBytes c n => with_row c (hs_bytes_row (pexact s) (nth 14 (g s) 0) n) s
+  | HsBytes c n => with_row c (hs_bytes_row (pexact s) (nth 14 (g s) 0) (maxpex s) n) s
   | PeerMsg c m n len => pmsg_step c m n len s
   | LibMsg c m =>
       match m with
@@ -581,7 +591,7 @@ Definition step (s : st) (o : op) : st :=
       end
   | PexEnable c =>
       match get_row c (rows s) with None => s | Some _ =>
-      with_row c (pex_enable_row (nth 14 (g s) 0)) s end
+      with_row c (pex_enable_row (nth 14 (g s) 0) (maxpex s)) s end
   | HashDone p =>
       let mine := filter (fun x => N.eqb (piece_of (bidx x)) p) (blocks s) in
       if forallb fin mine then
@@ -592,9 +602,10 @@ Definition step (s : st) (o : op) : st :=
   | Stop => do_stop s
   | Close => do_close s
   | Remove => do_close s
-  | Start => if opened s then mkSt (rows s) (g s) (blocks s) true true (seeding s) (rej s) (pexact s) (maxc s) else s
-  | SetMax n => mkSt (rows s) (g s) (blocks s) (active s) (opened s) (seeding s) (rej s) (pexact s) n
-  | PexTick => mkSt (rows s) (g s) (blocks s) (active s) (opened s) (seeding s) (rej s) true (maxc s)
+  | Start => if opened s then mkSt (rows s) (g s) (blocks s) true true (seeding s) (rej s) (pexact s) (maxc s) (maxpex s) else s
+  | SetMax n => mkSt (rows s) (g s) (blocks s) (active s) (opened s) (seeding s) (rej s) (pexact s) n (maxpex s)
+  | SetMaxPex n => mkSt (rows s) (g s) (blocks s) (active s) (opened s) (seeding s) (rej s) (pexact s) (maxc s) n
+  | PexTick => mkSt (rows s) (g s) (blocks s) (active s) (opened s) (seeding s) (rej s) true (maxc s) (maxpex s)
   end.
 
 Definition run (seed : bool) (ops : list op) : st := fold_left step ops (init seed).
